@@ -126,32 +126,49 @@ func fxScannerGlueTable(c *Ctx) *fxGlueTable {
 			}
 		}
 	}
-	// comment starters: `ch == c1 && s.peek() == c2`
+	// comment starters: the classifier answers true only where `ch == c1` and
+	// `s.peek() == c2` are both known — whichever way the test is spelled
+	// (`if ch == c1 && s.peek() == c2 { …; return true }`, or the negated test
+	// `if ch != c1 || s.peek() != c2 { return false }` first)
+	runeEq := func(f core.Fact) (x ssa.Value, r rune, ok bool) {
+		fb, isB := f.Cond.(*ssa.BinOp)
+		if !isB || (fb.Op != token.EQL && fb.Op != token.NEQ) || (fb.Op == token.EQL) == f.Neg {
+			return nil, 0, false
+		}
+		if k, isK := core.ConstRune(fb.Y); isK {
+			return fb.X, k, true
+		}
+		if k, isK := core.ConstRune(fb.X); isK {
+			return fb.Y, k, true
+		}
+		return nil, 0, false
+	}
 	for _, fn := range []*ssa.Function{cm, lc} {
-		for _, b := range fn.Blocks {
-			for _, in := range b.Instrs {
-				bin, ok := in.(*ssa.BinOp)
-				if !ok || bin.Op != token.EQL {
-					continue
-				}
-				call, ok := bin.X.(*ssa.Call)
-				if !ok || c.P.CalleeName(call) != "lib/parser.(*Scanner).peek" {
-					continue
-				}
-				c2, ok := core.ConstRune(bin.Y)
+		seen := map[[2]rune]bool{}
+		for _, ret := range core.Returns(fn) {
+			if len(ret.Results) != 1 {
+				continue
+			}
+			if v, isB := core.ConstBool(ret.Results[0]); !isB || !v {
+				continue
+			}
+			var firsts, seconds []rune
+			for _, f := range core.FactsAt(ret.Block()) {
+				x, k, ok := runeEq(f)
 				if !ok {
 					continue
 				}
-				for _, f := range core.FactsAt(b) {
-					fb, ok := f.Cond.(*ssa.BinOp)
-					if !ok || f.Neg || fb.Op != token.EQL {
-						continue
-					}
-					if _, isP := fb.X.(*ssa.Parameter); !isP {
-						continue
-					}
-					if c1, ok := core.ConstRune(fb.Y); ok {
-						t.pairs = append(t.pairs, [2]rune{c1, c2})
+				if _, isP := x.(*ssa.Parameter); isP {
+					firsts = append(firsts, k)
+				} else if call, isC := x.(*ssa.Call); isC && c.P.CalleeName(call) == "lib/parser.(*Scanner).peek" {
+					seconds = append(seconds, k)
+				}
+			}
+			for _, c1 := range firsts {
+				for _, c2 := range seconds {
+					if pr := [2]rune{c1, c2}; !seen[pr] {
+						seen[pr] = true
+						t.pairs = append(t.pairs, pr)
 					}
 				}
 			}
